@@ -22,7 +22,7 @@ def main():
     try:
         for p in a.props:
             t0 = time.time()
-            env = dict(os.environ, VERIF_SEED=a.seed, VERIF_DUMP="/tmp/mutest-%s.keys" % p)
+            env = dict(os.environ, VERIF_SEED=a.seed, VERIF_DUMP="/tmp/mutest-%s.keys" % p, VERIF_EVIDENCE_DIR="/tmp/mutest-evidence")
             q = subprocess.run([sys.executable, os.path.join(V, "checks", "check.py"), p, "--tier", a.tier], cwd=V, env=env, capture_output=True, text=True)
             keys = []
             try:
@@ -40,6 +40,13 @@ def main():
     finally:
         subprocess.run(["git", "-C", "/repo", "checkout", "--", "."], check=True)
     print(json.dumps(res))
+    meta = os.path.join(os.path.dirname(os.path.abspath(a.patch)), "meta.json")
+    if os.path.exists(meta):
+        m = json.load(open(meta))
+        for p, r in res.items():
+            m.setdefault("checks_run", []).append(dict(check=p, tier=a.tier, seed=a.seed, fired=r["exit"] == 1, exit=r["exit"],
+                                                        wall_s=r["wall"], keys=r["keys"][:4]))
+        json.dump(m, open(meta, "w"), indent=1)
 
 
 if __name__ == "__main__":
